@@ -79,6 +79,10 @@ def run(F, R):
     # Q9: the stocked queues run in the negotiated modes (C08.H3)
     from .C08 import queue_modes_rule
     queue_modes_rule(F, R, M, 'Q9', ['device::input', 'device::sound', 'device::socket'])
+    # Q11: events keep being delivered after the 16-bit ring indices wrap (65536 completions on one queue): wrap-safe
+    # counters and the folded completion test (C03.E5 / E9)
+    from .C03 import wrap_rule
+    wrap_rule(F, R, 'Q11')
     # Q10: delivered events are what the device wrote: the notification-type decoding table agrees with the enum's codes
     decode_tables_rule(F, R, 'Q10', ['device::sound', 'device::input', 'device::socket'])
 
